@@ -11,14 +11,12 @@
 From Coq Require Import List ZArith NArith Bool Arith Lia.
 From EasyML Require Import Base.Sx Model.U64 Model.Fallible Model.Matrix Gen.Arith Proofs.C11Spec.
 Import ListNotations.
+From EasyML Require Import Proofs.GenTac.
 Open Scope N_scope.
 
 (* (independent of Proofs/GenArithP.v on purpose: a change to a function C16 is about must not
    make C11's equivalence proofs fail, and vice versa) *)
-Tactic Notation "gen_equiv" ident(name) "by" tactic(t) :=
-  first [ solve [ t ]
-        | fail 1 "GENERATED-EQUIVALENCE-BROKEN" name
-                 ": the definition translated from the Rust source no longer equals the hand-written model" ].
+(* gen_equiv: Proofs/GenTac.v (the specific script, then the shape-independent finisher) *)
 
 Lemma gen_Matrix_get_index_eq : forall md rows cols row col,
   gen_Matrix_get_index md (mkGenMatrix rows cols) row col =
